@@ -7,7 +7,7 @@ import z3
 from pyvc import values as V
 from pyvc.interp import ModelObject, Obj
 from pyvc.spec import Args, Spec
-from pyvc.values import PyRaise
+from pyvc.values import PyRaise, Unsupported
 
 
 class World:
@@ -221,39 +221,138 @@ class MainLoopStructure(Lemma):
     """main(): `while model.timer.step < model.timer.Nsteps - 1: model.update()` followed by `model.finish()`.
     Model.update advances the clock by exactly one step (proved: Model.update), so the body runs exactly
     Nsteps - 1 - step0 times: Nsteps updates from a cold start (step0 = -1), Nsteps - 1 after the warm-start
-    catch-up (step0 = 0); the steps visited are step0+1 .. Nsteps-1. Decided structurally on the extracted AST
-    (a `for _ in range(model.timer.Nsteps)` loop is accepted as the cold-start-only equivalent)."""
+    catch-up (step0 = 0); the steps visited are step0+1 .. Nsteps-1.
+
+    Decided on the extracted AST of the real main(): the loop guard is TRANSLATED to a formula over (step, Nsteps)
+    (local aliases such as ``nsteps = model.timer.Nsteps`` resolved) and proved equivalent to step < Nsteps-1 by the
+    solver; the loop body must perform exactly one unconditional ``model.update()``; every other statement of the body
+    must be free of effects on the model (logging calls, assignments to local names, conditionals over those: decided
+    by an effect analysis - no call except logging/pure builtins, no attribute or item store). A structure the
+    analysis cannot read (loop inside try/finally, update under a condition, ...) makes the lemma UNDECIDED, not
+    refuted; the bounded runs of the real loop (native harnesses) remain."""
 
     name = "main loop: one model update per step up to step Nsteps-1, then finish"
     properties = ("C07", "C19", "C08")
+    PURE = ("max", "min", "len", "int", "float", "str", "abs", "round", "divmod", "bool", "repr", "format")
+
+    # -- effect analysis ----------------------------------------------------------
+    def _pure_expr(self, e) -> bool:
+        for n in ast.walk(e):
+            if isinstance(n, ast.Call):
+                f = n.func
+                root = f
+                while isinstance(root, ast.Attribute):
+                    root = root.value
+                if isinstance(root, ast.Name) and root.id in ("logger", "logging"):
+                    continue
+                if isinstance(f, ast.Name) and f.id in self.PURE:
+                    continue
+                if isinstance(f, ast.Attribute) and isinstance(root, ast.Name) and root.id in ("datetime", "time") and f.attr in ("now", "time", "perf_counter", "today"):
+                    continue
+                return False
+            if isinstance(n, (ast.Await, ast.Yield, ast.YieldFrom, ast.NamedExpr, ast.Lambda)):
+                return False
+        return True
+
+    def _harmless(self, st) -> bool:
+        if isinstance(st, ast.Expr):
+            return isinstance(st.value, ast.Constant) or self._pure_expr(st.value)
+        if isinstance(st, (ast.Assign, ast.AnnAssign, ast.AugAssign)):
+            tg = st.targets if isinstance(st, ast.Assign) else [st.target]
+            flat = []
+            for t in tg:
+                flat += list(t.elts) if isinstance(t, (ast.Tuple, ast.List)) else [t]
+            return all(isinstance(t, ast.Name) and t.id != "model" for t in flat) and (st.value is None or self._pure_expr(st.value))
+        if isinstance(st, ast.If):
+            return self._pure_expr(st.test) and all(self._harmless(x) for x in st.body + st.orelse)
+        return isinstance(st, ast.Pass)
+
+    # -- guard translation ---------------------------------------------------------
+    def _tr(self, e, env):
+        if isinstance(e, ast.Constant) and isinstance(e.value, int) and not isinstance(e.value, bool):
+            return z3.IntVal(e.value)
+        if isinstance(e, ast.Name) and e.id in env:
+            return env[e.id]
+        txt = ast.unparse(e)
+        if txt in ("model.timer.step", "model.modules['time'].step"):
+            return env["#step"]
+        if txt in ("model.timer.Nsteps", "model.modules['time'].Nsteps"):
+            return env["#N"]
+        if isinstance(e, ast.BinOp) and isinstance(e.op, (ast.Add, ast.Sub, ast.Mult)):
+            l, r = self._tr(e.left, env), self._tr(e.right, env)
+            return l + r if isinstance(e.op, ast.Add) else l - r if isinstance(e.op, ast.Sub) else l * r
+        if isinstance(e, ast.UnaryOp) and isinstance(e.op, ast.USub):
+            return -self._tr(e.operand, env)
+        if isinstance(e, ast.UnaryOp) and isinstance(e.op, ast.Not):
+            return z3.Not(self._tr(e.operand, env))
+        if isinstance(e, ast.BoolOp):
+            vs = [self._tr(v, env) for v in e.values]
+            return z3.And(*vs) if isinstance(e.op, ast.And) else z3.Or(*vs)
+        if isinstance(e, ast.Compare):
+            ops = {ast.Lt: lambda a, b: a < b, ast.LtE: lambda a, b: a <= b, ast.Gt: lambda a, b: a > b, ast.GtE: lambda a, b: a >= b, ast.Eq: lambda a, b: a == b, ast.NotEq: lambda a, b: a != b}
+            vals = [self._tr(e.left, env)] + [self._tr(c, env) for c in e.comparators]
+            parts = []
+            for op, a, b in zip(e.ops, vals, vals[1:]):
+                if type(op) not in ops:
+                    raise Unsupported("comparison in the loop guard")
+                parts.append(ops[type(op)](a, b))
+            return z3.And(*parts) if len(parts) > 1 else parts[0]
+        raise Unsupported(f"cannot read `{txt}` in the guard of the time loop")
 
     def formula(self):
         mod, _c, node = Repo().lookup("ladim.main.main")
-        loops = [st for st in node.body if isinstance(st, (ast.For, ast.While)) and "model.update" in ast.unparse(st)]
-        ok_loop = ok_after = ok_before = False
-        warm_ok = False
-        if len(loops) == 1:
-            lp = loops[0]
-            body = [ast.unparse(b) for b in lp.body if not (isinstance(b, ast.Expr) and isinstance(b.value, ast.Constant))]
-            if isinstance(lp, ast.While):
-                cond = ast.unparse(lp.test).replace(" ", "")
-                ok_loop = cond in ("model.timer.step<model.timer.Nsteps-1", "model.timer.step+1<model.timer.Nsteps") and body == ["model.update()"] and not lp.orelse
-                warm_ok = ok_loop
+        calls = lambda st, what: sum(1 for n in ast.walk(st) if isinstance(n, ast.Call) and ast.unparse(n.func) == what)  # noqa: E731
+        loops = [st for st in node.body if isinstance(st, (ast.For, ast.While)) and calls(st, "model.update")]
+        if len(loops) != 1:
+            if not any(calls(st, "model.update") for st in node.body):
+                return [(self.name + ": main() calls model.update()", [], z3.BoolVal(False))]
+            raise Unsupported("the time loop of main() is not a top-level loop of the function: structure not analysed")
+        lp = loops[0]
+        idx = node.body.index(lp)
+        n, s0, k, step = z3.Ints("Nsteps step0 k step")
+        env = {"#step": step, "#N": n}
+        for st in node.body[:idx]:  # local aliases of the loop bounds
+            if isinstance(st, ast.Assign) and len(st.targets) == 1 and isinstance(st.targets[0], ast.Name):
+                try:
+                    env[st.targets[0].id] = self._tr(st.value, env)
+                except Unsupported:
+                    env.pop(st.targets[0].id, None)
+        body = [b for b in lp.body if not (isinstance(b, ast.Expr) and isinstance(b.value, ast.Constant))]
+        updates = [b for b in body if isinstance(b, ast.Expr) and ast.unparse(b.value) == "model.update()"]
+        others = [b for b in body if b not in updates]
+        if sum(calls(b, "model.update") for b in body) != len(updates):
+            raise Unsupported("model.update() is called under a condition or inside an expression in the time loop")
+        if lp.orelse or any(isinstance(x, (ast.Break, ast.Continue, ast.Return)) for b in body for x in ast.walk(b)):
+            raise Unsupported("the time loop leaves its body by break/continue/else")
+        bad = [ast.unparse(b).splitlines()[0] for b in others if not self._harmless(b)]
+        if bad:
+            raise Unsupported(f"statement in the time loop whose effects are not analysed: {bad[0]}")
+        items = [(self.name + ": each pass of the time loop performs exactly one model.update()", [], z3.BoolVal(len(updates) == 1))]
+        if isinstance(lp, ast.While):
+            guard = self._tr(lp.test, env)
+            items.append((self.name + ": the loop runs while step < Nsteps-1 (guard translated from the source)", [step >= -1, n >= 1], guard == (step < n - 1)))
+            items.append(("C08: after a warm start (step0 = 0) the loop ends at step Nsteps-1, never reaching the stop time", [step >= 0, n >= 1], guard == (step < n - 1)))
+        else:
+            if not (isinstance(lp.iter, ast.Call) and ast.unparse(lp.iter.func) == "range" and len(lp.iter.args) == 1):
+                raise Unsupported("for-loop form of the time loop")
+            cnt = self._tr(lp.iter.args[0], env)
+            items.append((self.name + ": a counted loop performs Nsteps - 1 - step updates (the clock is at `step` before the loop)", [step >= -1, step <= 0, n >= 1], cnt == n - 1 - step))
+        after = node.body[idx + 1 :]
+        fin_top = sum(1 for b in after if isinstance(b, ast.Expr) and ast.unparse(b.value) == "model.finish()")
+        fin_all = sum(calls(b, "model.finish") for b in node.body)
+        if fin_all != fin_top or any(calls(b, "model.update") for b in after):
+            if fin_all == 0:
+                items.append((self.name + ": finish() is called after the loop", [], z3.BoolVal(False)))
             else:
-                ok_loop = ast.unparse(lp.iter) == "range(model.timer.Nsteps)" and body == ["model.update()"] and not lp.orelse
-            idx = node.body.index(lp)
-            after = [ast.unparse(b) for b in node.body[idx + 1 :]]
-            ok_after = sum(1 for x in after if x == "model.finish()") == 1 and not any("model.update" in x for x in after)
-            before = [ast.unparse(b) for b in node.body[:idx]]
-            ok_before = sum(1 for x in before if x == "model = Model(config)") == 1 and not any("model.update" in x or "model.finish" in x for x in before)
-        n, s0, k = z3.Ints("Nsteps step0 k")
-        return [
-            (self.name + ": the time loop runs model.update() while step < Nsteps-1 (or for range(Nsteps))", [], z3.BoolVal(ok_loop)),
-            (self.name + ": finish() is called exactly once, after the loop", [], z3.BoolVal(ok_after)),
-            (self.name + ": the model is constructed exactly once, before the loop", [], z3.BoolVal(ok_before)),
-            ("C08: after a warm start (step0 = 0) the loop ends at step Nsteps-1, never reaching the stop time", [], z3.BoolVal(warm_ok)),
-            (self.name + ": with one step per update the k-th update is at step step0 + k and the loop guard holds exactly for k <= Nsteps-1-step0", [s0 >= -1, s0 <= 0, n >= 1, k >= 1], (s0 + (k - 1) < n - 1) == (s0 + k <= n - 1)),
-        ]
+                raise Unsupported("model.finish()/update() outside the analysed positions")
+        else:
+            items.append((self.name + ": finish() is called exactly once, after the loop", [], z3.BoolVal(fin_top == 1)))
+        built = [b for b in node.body[:idx] if isinstance(b, (ast.Assign, ast.AnnAssign)) and b.value is not None and isinstance(b.value, ast.Call) and ast.unparse(b.value.func) in ("Model", "model.Model", "ladim.model.Model")]
+        if len(built) != 1 or any(calls(b, "model.finish") for b in node.body[:idx]):
+            raise Unsupported("construction of the model before the time loop not recognised")
+        items.append((self.name + ": the model is constructed exactly once, before the loop", [], z3.BoolVal(True)))
+        items.append((self.name + ": with one step per update the k-th update is at step step0 + k and the loop guard holds exactly for k <= Nsteps-1-step0", [s0 >= -1, s0 <= 0, n >= 1, k >= 1], (s0 + (k - 1) < n - 1) == (s0 + k <= n - 1)))
+        return items
 
 
 class RecordSchedule(Lemma):
@@ -353,7 +452,7 @@ class PathM(ModelObject):
         if name == "stem":
             base = self.name.split("/")[-1]
             return base[:-3] if base.endswith(".py") else base
-        raise PyRaise("AttributeError", (name,))
+        raise Unsupported(f"Path attribute {name} is not modelled")
 
 
 class Ghost(ModelObject):
@@ -374,7 +473,9 @@ class Ghost(ModelObject):
             return exec_module
         if self.tag == "module" and name in self.kw.get("classes", ()):
             return Ghost("class", module=self, name=name)
-        raise PyRaise("AttributeError", (name,))
+        if self.tag == "module" and not name.startswith("__"):
+            raise PyRaise("AttributeError", (name,))  # the module defines exactly the listed classes
+        raise Unsupported(f"attribute {name} of an importlib object is not modelled")
 
     def pv_call(self, interp, args, kwargs):
         if self.tag != "class":
